@@ -7,6 +7,7 @@ import z3
 from vc.sorts import CheckerError
 from vc import engine, cxxvc
 from contracts import parsing_h as ph
+from contracts import parsing_h_helpers as phh
 
 _AST = None
 
@@ -18,14 +19,28 @@ def get_ast():
     return _AST
 
 
+_ALL = None
+
+
 def all_obligations():
+    """generated once per process; the forked solver jobs inherit the parent's copy"""
+    global _ALL
+    if _ALL is None:
+        _ALL = _all_obligations()
+    return _ALL
+
+
+def _all_obligations():
     ast = get_ast()
     g, m, outs = ph.run_main_loop(ast)
     recs, lines = ph.spec_obligations_main(g, m, outs)
     g2, m2, outs2 = ph.run_leaf_loop(ast)
     recs2 = ph.spec_obligations_leaf(g2, m2, outs2)
-    recs2 = recs2 + ph.run_lambdas(ast)
-    return recs + recs2, dict(main_paths=len(outs), leaf_paths=len(outs2), push_lines=sorted(lines))
+    recs2 = recs2 + ph.run_lambdas(ast) + ph.config_frame_scan(ast)
+    t0 = time.time()
+    recs2 = recs2 + phh.helper_records(ast)
+    helper_s = round(time.time() - t0, 2)
+    return recs + recs2, dict(main_paths=len(outs), leaf_paths=len(outs2), push_lines=sorted(lines), helper_generation_s=helper_s)
 
 
 def run_job(kind, key):
@@ -56,14 +71,31 @@ def records_for(prop, modname='props.cxx'):
     return records, errors, info
 
 
+HELPER_FUNCTIONS = {
+    'C01': ['depccg/parsing.h::utils::argmax<float>', 'depccg/parsing.h::parsing::matrix::operator()', 'depccg/parsing.h::parsing::matrix::argmax',
+            'depccg/parsing.h::parsing::compute_outside_probabilities (3 loops, ghost prefix/suffix sums)', 'depccg/parsing.h::parse_sentence (score setup region: 2 loops)'],
+    'C09': ['depccg/parsing.h::utils::argmax<float>', 'depccg/parsing.h::parsing::matrix::operator()', 'depccg/parsing.h::parsing::matrix::argmax',
+            'depccg/parsing.h::parse_sentence (score setup region: 2 loops)'],
+    'C16': ['depccg/parsing.h::parse_sentence (score setup region: candidate queues)'],
+    'C02': ['depccg/parsing.h::parsing::chart::cell::contains', 'depccg/parsing.h::parsing::chart::cell::emplace', 'depccg/parsing.h::parsing::chart::operator()',
+            'depccg/parsing.h::parsing::chart::update'],
+    'C10': ['depccg/parsing.h::parsing::chart::cell::contains', 'depccg/parsing.h::parsing::chart::cell::emplace', 'depccg/parsing.h::parsing::chart::cell::size',
+            'depccg/parsing.h::parsing::chart::operator()', 'depccg/parsing.h::parsing::chart::update', 'depccg/parsing.h::parsing::chart::size'],
+}
+
 CXX_ASSUMPTIONS = [
     'C++14 semantics of the subset (vc/cxxvc.py): unsigned as mathematical integers with no-wrap obligations, float as mathematical reals (no rounding, NaN, Inf)',
     'aggregate initialisation binds initialisers to cell_item fields in declaration order (field order read from clang\'s AST on every run)',
-    'STL contracts: priority_queue::top is a maximum w.r.t. operator< and pop removes it; vector/list/unordered_map element access; chart::update returns nullptr or a pointer to a copy',
-    'loop rule: the body of the search loop / leaf loop is executed once from an arbitrary state in which every agenda and chart item satisfies Inv; Inv is re-established at every push site',
-    'setup contracts (lines 308-332): best_tag(t) >= tag(t,c), best_dep(t) >= dep(t,h) for all columns (argmax), tag_out/dep_out(i,j) = P(i) + P(length) - P(j) with P the prefix sums, dep_leaf_out_score = Pdep(length)',
+    'STL contracts (assumed): priority_queue::top is a maximum w.r.t. operator< and pop removes it; unordered_set::count / emplace; list::push_front / front / size; '
+    'vector<cell*>::push_back; vector / unordered_map element access',
+    'constructor initialiser lists are read, not executed: an owning parsing::matrix(rows, cols) has rows * cols floats; parsing::chart(length, nbest) has length * length cells '
+    'and length + 1 start / end lists',
+    'loop rule: the body of the search loop / leaf loop is executed once from an arbitrary state in which every agenda and chart item satisfies Inv; Inv is re-established at every push site; '
+    'helper loops (argmax, compute_outside_probabilities, score setup) carry sidecar invariants and variants (contracts/parsing_h_helpers.py): init / preserved / variant / exit obligations',
+    'the ghost symbols of the loop proofs (best_tag, best_dep, Ptag, Pdep, tag_out, dep_out, dep_leaf_out_score, candidate queues) MEAN the arrays at the end of the score setup region; '
+    'each fact the loop proofs use about them is a setup-post obligation discharged from the code (no longer assumed); the induction principle for the three lemma-base / lemma-step pairs is the meta-rule',
+    'precondition of parse_sentence: length >= 1, num_tags >= 1, finite scores (no NaN / infinity: every value >= numeric_limits<float>::lowest()); a row of -inf head scores would make argmax return -1',
     'grammar callbacks through scaffold: the k-th element of the result vector has rule_id = k (parsing.pyx enumerate) and the fields of the k-th grammar result; cached vectors equal fresh ones (C11/C14)',
-    'length >= 1 (an empty sentence is outside the precondition, see C11)',
     'std::exp is positive and monotone',
     'z3 / cvc5',
 ]
